@@ -51,7 +51,7 @@ spellings of one name, the second coalesced onto the first's resolution; both ge
 example :
     let cs : List Client := [⟨7, ⟨1, 0, 1⟩, 0, .forward⟩, ⟨7, ⟨1, 3, 1⟩, 0, .forward⟩]
     let s := run codeCfg (init cs)
-      [.arrive 0, .arrive 1, .resolve 0 .udp (.msg ⟨99, some ⟨1, 0, 1⟩, true, 0, false, 5⟩) .fail, .wake 1, .wake 0]
+      [.arrive 0, .join 0, .arrive 1, .join 1, .resolve 0 .udp (.msg ⟨99, some ⟨1, 0, 1⟩, true, 0, false, 5⟩) .fail, .wake 1, .wake 0]
     s.outs.length = 2 ∧ s.calls.length = 1 := by decide
 
 /-- The reply a caller of `Handle_` builds when it returned an error (SERVFAIL / TC=1) is made from
@@ -71,18 +71,19 @@ and serves to a second client, the answer to another question (DESIGN §7 item 7
 theorem question_unchecked_witness :
     let cs : List Client := [⟨100, ⟨1, 0, 1⟩, 0, .forward⟩, ⟨101, ⟨1, 0, 1⟩, 0, .forward⟩]
     let s := run { checkQuestion := false } (init cs)
-      [.arrive 0, .resolve 0 .udp (.msg ⟨100, some ⟨2, 0, 1⟩, true, 0, false, 6⟩) .fail, .wake 0, .arrive 1]
+      [.arrive 0, .join 0, .resolve 0 .udp (.msg ⟨100, some ⟨2, 0, 1⟩, true, 0, false, 6⟩) .fail, .wake 0, .arrive 1]
     (∃ e, (Key.mk 1 1 0, e) ∈ s.cache ∧ e.q.name = 2) ∧
     (∃ r, (1, Outcome.wrote r) ∈ s.outs ∧ r.q = some ⟨2, 0, 1⟩) := by
   refine ⟨⟨⟨⟨2, 0, 1⟩, 6⟩, by decide, rfl⟩, ⟨⟨101, some ⟨2, 0, 1⟩, 0, false, 6, .cache⟩, by decide, rfl⟩⟩
 
 /-- **Singleflight: one resolution.** In every reachable state (a) upstream resolutions and flights
-are in one-to-one correspondence, (b) at most one flight runs per cache key — two clients attached
+correspond: every `sf.Do` leader starts at most one (none when its own re-check finds the cache
+filled in the meantime), (b) at most one flight runs per cache key — two clients attached
 to running flights for the same key are attached to the same flight, (c) a client attached to a
 flight asks the question the flight resolves. -/
 theorem singleflight_one_resolution (cs : List Client) (as : List Act) :
     let s := run codeCfg (init cs) as
-    s.calls.length = s.flights.length ∧
+    (s.calls.length = s.activated ∧ s.activated ≤ s.flights.length) ∧
     (∀ (i j f g : Nat) (fi fj : Flight), (s.pcs[i]? = some (Pc.waiting f) ∨ s.pcs[i]? = some (Pc.leading f)) →
         (s.pcs[j]? = some (Pc.waiting g) ∨ s.pcs[j]? = some (Pc.leading g)) →
         s.flights[f]? = some fi → s.flights[g]? = some fj → fi.result = none → fj.result = none →
@@ -102,8 +103,16 @@ theorem singleflight_one_resolution (cs : List Client) (as : List Act) :
 clients of which two collide on the ID). -/
 example :
     let cs : List Client := [⟨7, ⟨1, 0, 1⟩, 0, .forward⟩, ⟨7, ⟨1, 1, 1⟩, 0, .forward⟩, ⟨9, ⟨1, 2, 1⟩, 0, .forward⟩]
-    let s := run codeCfg (init cs) [.arrive 0, .arrive 1, .arrive 2]
+    let s := run codeCfg (init cs) [.arrive 0, .arrive 1, .join 0, .arrive 2, .join 2, .join 1]
     s.calls.length = 1 ∧ s.pcs = [.leading 0, .waiting 0, .waiting 0] := by decide
+
+/-- the leader's re-check: the cache is filled between a client's first lookup and its `sf.Do`; it
+becomes the leader of a flight that needs no upstream exchange. -/
+example :
+    let cs : List Client := [⟨7, ⟨1, 0, 1⟩, 0, .forward⟩, ⟨8, ⟨1, 2, 1⟩, 0, .forward⟩]
+    let s := run codeCfg (init cs)
+      [.arrive 0, .arrive 1, .join 0, .resolve 0 .udp (.msg ⟨7, some ⟨1, 0, 1⟩, true, 0, false, 5⟩) .fail, .join 1, .wake 1, .wake 0]
+    s.calls.length = 1 ∧ s.flights.length = 2 ∧ s.outs.length = 2 := by decide
 
 /-- **… whose result reaches every waiter, once.** A client blocked in `sf.Do` on a finished flight
 can return; when it does it is done and has exactly one outcome, which is an error only if the
